@@ -44,7 +44,7 @@ func c08Sig(s string) os.Signal {
 func c08Cases() []c08Case {
 	var cs []c08Case
 	for _, sig := range []string{"TERM", "HUP", "INT"} {
-		for _, sc := range []string{"serve-e2e", "after-reinit", "final-ra-fails", "idle", "pending-delay", "rs-at-stop", "periodic-due", "armed-write-2", "armed-write-2-fails", "armed-write-2-enobufs", "armed-write-3-unicast", "armed-fwd-3"} {
+		for _, sc := range []string{"serve-e2e", "after-reinit", "final-ra-fails", "idle", "pending-delay", "rs-at-stop", "periodic-due", "armed-write-2", "armed-write-2-fails", "armed-write-2-enobufs", "armed-write-3-unicast", "armed-fwd-3", "armed-write-1", "armed-reinit-initial"} {
 			if sig == "INT" && sc != "armed-write-3-unicast" && sc != "idle" && sc != "serve-e2e" && sc != "after-reinit" && sc != "final-ra-fails" {
 				continue
 			}
@@ -71,7 +71,7 @@ func c08Scenario(c c08Case) *vsched.Scenario {
 				cfg.Preference = ndp.Low
 			}
 			cfg.Plugins = []plugin.Plugin{plugin.NewMTU(1480), &plugin.DNSSL{Lifetime: time.Hour, DomainNames: []string{"example.com"}}}
-			a = newAdvWorld(cfg, true, c.Script == "after-reinit")
+			a = newAdvWorld(cfg, true, c.Script == "after-reinit" || c.Script == "armed-reinit-initial")
 			a.latency = c.Latency
 			stop := func() {
 				a.term.set(c08Sig(c.Sig))
@@ -118,6 +118,16 @@ func c08Scenario(c c08Case) *vsched.Scenario {
 							return os.NewSyscallError("sendmsg", syscall.ENOBUFS)
 						}
 						return errors.New("verif: network is unreachable")
+					}
+				}
+			case "armed-write-1", "armed-reinit-initial": // the initial RA of the first / of a re-established connection is in flight
+				want := 1
+				if c.Script == "armed-reinit-initial" {
+					want = 2
+				}
+				a.hookWrite = func(n int, _ netip.Addr) {
+					if n == want {
+						fire()
 					}
 				}
 			case "armed-write-3-unicast": // the solicited response's WriteTo
@@ -197,6 +207,19 @@ func c08Scenario(c c08Case) *vsched.Scenario {
 				case "armed-write-2", "armed-write-2-fails", "armed-write-2-enobufs":
 					vsched.Sleep(2 * time.Second)
 					vsched.Mark()
+					vsched.Recv("harness:armed", arm)
+					stop()
+				case "armed-write-1":
+					// The stop arrives while the interface is being initialised: its initial RA
+					// (non-zero lifetime) is on its way out.
+					vsched.Mark()
+					vsched.Recv("harness:armed", arm)
+					stop()
+				case "armed-reinit-initial":
+					// ... and the same during a re-initialisation after a link change.
+					vsched.Sleep(1500 * time.Millisecond)
+					vsched.Mark()
+					vsched.Send("harness:link-change", a.watchC, netstate.LinkDown)
 					vsched.Recv("harness:armed", arm)
 					stop()
 				case "armed-write-3-unicast", "armed-fwd-3":
